@@ -30,6 +30,8 @@ type harnessCfg struct {
 	Twin          bool   `json:"twin"` // vacuity twin: must yield a violation
 	Tier          string `json:"tier"` // "", "quick", "thorough": run only in that tier (""=both)
 	Scale         []struct {
+		Pkg  string `json:"pkg"`  // instead of func: every function of this package, constants of type Type only
+		Type string `json:"type"` // e.g. "int64" (with pkg)
 		Func string `json:"func"`
 		From int64  `json:"from"`
 		To   int64  `json:"to"`
